@@ -221,6 +221,12 @@ def oracle_write(case):
     if is_raised(las):
         out.fail("build-raises|" + las.bucket, str(las))
         return out
+    for j in case.get("object_cols", []):
+        # numeric samples held in an object array (what set_data_from_df leaves behind next to a text curve): the
+        # NaN there is the Python float; it is a NaN all the same
+        if j < len(las.curves):
+            las.curves[j].data = np.array([float(x) for x in las.curves[j].data], dtype=object)
+            out.cls("object-dtype-numeric-curve")
     opts = dict(case["opts"])
     if "column_fmt" in opts:
         opts["column_fmt"] = {int(k): v for k, v in opts["column_fmt"].items()}
@@ -317,6 +323,8 @@ def write_cases(draw):
     case = dict(side="write", nullspec=nullspec, cols=cols, opts=opts)
     if draw(st.integers(0, 3)) == 0:
         case["textcol"] = [draw(st.sampled_from(["SAND", "LIME", "x1", "N/A"])) for _ in range(r)]
+    if c >= 2 and draw(st.integers(0, 3)) == 0:
+        case["object_cols"] = sorted(set(draw(st.lists(st.integers(1, c - 1), min_size=1, max_size=2))))
     return case
 
 
